@@ -81,6 +81,19 @@ def rename_module(tree):
     return FT().visit(tree)
 
 
+def pad_module(tree):
+    """insert a no-op statement after the docstring of every function and before every return"""
+    class P(ast.NodeTransformer):
+        def visit_FunctionDef(self, fn):
+            self.generic_visit(fn)
+            k = 1 if fn.body and isinstance(fn.body[0], ast.Expr) and isinstance(fn.body[0].value, ast.Constant) and isinstance(fn.body[0].value.value, str) else 0
+            fn.body.insert(k, ast.Pass())
+            if fn.body and isinstance(fn.body[-1], ast.Return):
+                fn.body.insert(len(fn.body) - 1, ast.Pass())
+            return fn
+    return P().visit(tree)
+
+
 def transform(dst, what):
     n = 0
     for dp, dn, fns in os.walk(os.path.join(dst, "renormalizer")):
@@ -94,6 +107,8 @@ def transform(dst, what):
                 continue
             if what == "rename":
                 tree = rename_module(tree)
+            if what == "pad":
+                tree = pad_module(tree)
             ast.fix_missing_locations(tree)
             out = ast.unparse(tree)
             compile(out, p, "exec")
@@ -103,7 +118,7 @@ def transform(dst, what):
 
 
 rc = 0
-for what in (["reformat", "rename"] if mode == "both" else [mode]):
+for what in (["reformat", "rename", "pad"] if mode == "both" else [mode]):
     tmp = tempfile.mkdtemp(prefix="renostat-twin-") if not keep else keep[0]
     if keep:
         shutil.rmtree(tmp, ignore_errors=True)
